@@ -15,7 +15,7 @@ from lib import gen2, monitors
 import re
 
 ID = 'C01'
-TECHNIQUE = 'runtime monitor: independent node-entry counter (M1) + probe/effect log, offline threshold and prefix checker over every budget 1..T+2'
+TECHNIQUE = "runtime monitor: independent node-entry counter (M1) + probe/effect log, offline threshold and prefix checker over every budget 1..T+2; workloads: type-directed programs, coverage-guided programs (atheris), the repository's tests"
 ADDR = re.compile(r'0x[0-9a-f]+')
 RULE = "programs: (i) type-directed programs of G2 (all node kinds, lambdas driven by map/filter/reduce/sorted) extended with host probes emit(...), host callbacks hm(f, n), try_(f, ...) (which swallows the error and lets the program continue) and reenter(k) (which evaluates another program on the same parser while the call is in flight); (ii) scoping scenarios with recursive and re-entrant lambdas; (iii) a program lambda handed to every entry of the function table; (iv) helper lambdas compiled by the host and supplied through ast_names, called repeatedly; each on a plain parser and on one with a parse cache (the same text evaluated repeatedly). For every program: one 'unbounded' run (budget 20000), then every budget N in 1..min(T+2, 60), random N up to T+2, and the default. Histories: 2-6 eval calls sharing one names mapping, call i defining a lambda that call j > i invokes under a different budget. Non-trivial = a (program, N) pair in which the run was compared with the unbounded run (threshold, abort point, monotonicity, effect prefix, counter equality); distinct = distinct (program text, N, parser kind)."
 RULE += ' Every program also runs under two budgets far above any need (10^6 ... 10^20000, integers too long to print included).'
